@@ -140,6 +140,30 @@ def check_lattice(rec, name, make, dim, bc, bcm, order, quick, rng):
             if v != i:
                 rec.violation('mps2lat_values:misplaced', f'value of site {i} (lat {li.tolist()}) found {v}', inp)
                 break
+    # --- mps2lat_values_masked: arbitrary subsets of MPS indices (infinite: also left and right of the unit cell);
+    # every given value sits at the lattice coordinates of its site (negative x0 wrap around, as documented), nothing else is unmasked
+    for trial in range(3):
+        lo, hi = (0, N) if lat.bc_MPS == 'finite' else (-N - 1, 2 * N + 1)
+        k = int(rng_glob.integers(1, max(2, min(N, 6))))
+        inds = np.sort(rng_glob.choice(np.arange(lo, hi), size=k, replace=False))
+        vals_in = 100. + np.arange(k)
+        try:
+            res = lat.mps2lat_values_masked(vals_in, 0, inds)
+        except Exception as e:
+            rec.violation('mps2lat_values_masked:exception:' + type(e).__name__, str(e)[:150], dict(inp, mps_inds=inds.tolist()))
+            break
+        okm = int(np.sum(~np.ma.getmaskarray(res))) == k
+        for v_, i_ in zip(vals_in, inds):
+            li = lat.mps2lat_idx(int(i_))
+            idx = tuple(int(x) for x in (li if len(lat.unit_cell) > 1 else li[:-1]))
+            try:
+                okm = okm and (not np.ma.getmaskarray(res)[idx]) and res[idx] == v_
+            except IndexError:
+                okm = False
+        if not okm:
+            rec.violation('mps2lat_values_masked:misplaced', f'mps_inds {inds.tolist()}: {k} values given, '
+                          f'{int(np.sum(~np.ma.getmaskarray(res)))} unmasked, shape {res.shape}', dict(inp, mps_inds=inds.tolist()))
+            break
     # --- couplings against brute force
     nu = len(lat.unit_cell)
     maxd = [l for l in lat.Ls]
@@ -208,6 +232,9 @@ def check_neighbors(rec, name, make, dim):
             rec.check(abs(d - level) < 1e-7, f'pairs[{key}]:distance', f'({u1},{u2},{list(dx)}) has distance {d}, level {level}', inp)
         rec.case(('neighbors', name, key))
         rec.check(got == exp, f'pairs[{key}]:set', f'missing {sorted(exp - got)[:4]} extra {sorted(got - exp)[:4]}', inp)
+
+
+rng_glob = np.random.default_rng(1919)
 
 
 def run(rec):
